@@ -30,10 +30,6 @@ def check(m, run):
     fns = [m.func('fitting.' + n) for n in ('interpolate_curve', 'interpolate_surface', 'approximate_curve', 'approximate_surface',
                                             'compute_params_surface', 'compute_knot_vector', 'compute_knot_vector2', '_build_coeff_matrix')]
     ra.HELPER_SCALARS.setdefault('compute_params_curve', [])
-    ra.ax1_helper_calls(m, run, fns)
-    ra.axk_keyword_suffix(m, run, [m.func('fitting.interpolate_surface'), m.func('fitting.approximate_surface')])
-    run.floor('AX1.helper-call-one-axis', 8, 'knot vector / coefficient matrix / basis calls of the surface fitters')
-    run.floor('AXK.keyword-axis', 12, 'surface attribute assignments')
     # parameters, knots and the two-pass structure of surface interpolation are decided on symbolic / labelled data (FIT3, IS2), the linear
     # solves exactly on symbolic matrices (LA3); the rules that read the index spelling corroborate
     from .. import skel_drivers as _sd
@@ -42,6 +38,14 @@ def check(m, run):
     _sd.fit3(m, run)
     _sd.is2(m, run)
     fit_ok = all(o.ok for o in run.obs[n0:])
+    if fit_ok:
+        # FIT3 has decided that compute_params_surface returns (parameters along u, parameters along v): the direction tags of its result
+        # are entered as such instead of being inferred from the spelling of its body
+        ra.DECLARED_RET['fitting.compute_params_surface'] = [{0}, {1}]
+    ra.ax1_helper_calls(m, run, fns)
+    ra.axk_keyword_suffix(m, run, [m.func('fitting.interpolate_surface'), m.func('fitting.approximate_surface')])
+    run.floor('AX1.helper-call-one-axis', 8, 'knot vector / coefficient matrix / basis calls of the surface fitters')
+    run.floor('AXK.keyword-axis', 12, 'surface attribute assignments')
     with run.corroborating(fit_ok, 'FIT3/IS2', rules=('LY1.index-matches-layout', 'AV1.average-over-other-direction', 'AX1.return-order', 'KV1.clamped-by-construction', 'KV1.interior-count', 'LY4.knot-vector-length', 'AX4.axis-map-single-valued', 'LY3.list-matches-declared-sizes')):
         interp_surface(m, run)
         params_surface(m, run)
